@@ -8,18 +8,18 @@ MC, EX, FE = "model_checking", "exploration", "fault_enumeration"
 CHECKS = {
  "C17": dict(engine="seqx", level=MC, design="§7 C17",
    technique="explicit-state BFS over call sequences on the real SortedPipeline with canonical-state dedup, reference model oracle",
-   text="Every (state, call) transition of the sorted pipeline reachable within the depth bound is executed on the real class and compared with a stable-sort reference model and with the execution order seen by recording handlers; exhaustive within the bound, silent beyond it.",
+   text="Every (state, call) transition of the sorted pipeline reachable within the depth bound (20 calls: typed inserts, clears, null arguments, re-setting the installed formatter, re-registering an already registered attribute handler / filter / sink object) is executed on the real class and compared with a stable-sort reference model and with the execution order seen by recording handlers; exhaustive within the bound; beyond it only a straight-line family of pipelines with 17-40 handlers (checked after every insertion).",
    note="Trusted: the canonical form (class + rank list from handlers()) is the complete state; g++/libstdc++ as installed; ASan/UBSan for iterator misuse."),
 }
 
 CHECKS.update({
  "C01": dict(engine="seqx", level=MC, design="§7 C01",
    technique="bounded-exhaustive enumeration of pipeline trees and fluent-builder call sequences on the real Pipeline/SimplePipeline, reference interpreter oracle",
-   text="Every pipeline tree up to the node/depth bound over a 13-kind handler alphabet (and every fluent builder call sequence up to the call bound) is evaluated on a 2-message sequence by the real classes and by an explicit-state reference interpreter; every delivery (sink, formatted text, attributes, raw message) must agree. Exhaustive within the bound.",
+   text="Every pipeline tree up to the node/depth bound over a 13-kind handler alphabet (and every fluent builder call sequence up to the call bound) is evaluated on a 2-message sequence by the real classes and by an explicit-state reference interpreter; every delivery (sink, formatted text, attributes, raw message) must agree. Exhaustive within the bound. A third space changes LIVE trees between messages (append / remove / clear at every node of every tree up to a smaller bound): each message must be evaluated in order on the tree as it is then.",
    note="Trusted: the reference interpreter (written from the property text); formatters returning a null QString are outside the alphabet; g++/ASan/UBSan."),
  "C16": dict(engine="seqx", level=MC, design="§7 C16",
    technique="explicit-state BFS over message sequences on the real filters/counter (canonical state by probing copies), reference automata; enumerated regex x text space against Python re",
-   text="All message sequences up to the depth bound over 7 texts x 5 types are fed to the real LevelFilter (25 threshold x type pairs), a DuplicateFilter and a SeqNumberAttr shared by two pipelines; verdicts and numbers must equal reference automata on every transition; RegExpFilter verdicts for every enumerated expression x text are compared with Python re.",
+   text="All message sequences up to the depth bound over 7 texts x 5 types are fed to the real LevelFilter (25 threshold x type pairs), a DuplicateFilter and a SeqNumberAttr shared by two pipelines; verdicts and numbers must equal reference automata on every transition; RegExpFilter verdicts for every enumerated expression x text are compared with Python re. Expressions handed over as QRegularExpression objects are enumerated with 11 pattern-option sets (oracle: that object applied to the text); runs of 2^8, 2^16, 2^17 (+-2) identical messages go through one duplicate filter and one counter.",
    note="Trusted: PCRE and Python re agree on the enumerated grammar (expressions rejected by either are excluded and counted); null and empty QString are the same text."),
 })
 
@@ -27,11 +27,11 @@ VFS_NOTE = "Trusted: the interposer sees every file-system call Qt makes (vacuit
 CHECKS.update({
  "C05": dict(engine="vfs", level=MC, design="§5, §7 C05",
    technique="exhaustive enumeration of operation histories (write kinds, day changes, restarts) on the real RotatingFileSink over interposed libc with virtual clock; byte-stream reference oracle after every operation",
-   text="Every operation history up to the depth bound, for every enumerated (size limit, count limit, option set, file-name shape), is executed on the real sink; after every operation the directory is read back (gzip decoded independently) and must continue the written byte stream exactly: no record lost, duplicated, reordered or split; files vanish only under retention.",
+   text="Every operation history up to the depth bound, for every enumerated (size limit, count limit, option set, file-name shape), is executed on the real sink; after every operation the directory is read back (gzip decoded independently) and must continue the written byte stream exactly: no record lost, duplicated, reordered or split; files vanish only under retention. Restarts that switch compression or rotation-on-startup (an edited configuration; compressed and plain rotated files mixed) and a hidden log file name (.app.log) are part of the space.",
    note=VFS_NOTE),
  "C06": dict(engine="vfs", level=MC, design="§5, §7 C06",
    technique="exhaustive history enumeration + straight-line index-crossing histories under tied/untied virtual timestamps on the real sink; per-unlink system-call monitor and survivor-contiguity oracle",
-   text="Every history up to the depth bound for N in {<=0,1,2,3,..}, plus 12/102 consecutive rotations crossing index 9->10 and 99->100 under tied and 1 ms timestamps, with look-alike foreign files present: after every operation at most N files, survivors are the most recent contiguous stretch, nothing deleted for N<=0, nothing rotated for N=1, foreign files byte-identical; every unlink is checked when it is issued.",
+   text="Every history up to the depth bound for N in {<=0,1,2,3,..}, plus 12/102 consecutive rotations crossing index 9->10 and 99->100 under tied and 1 ms timestamps, with look-alike foreign files present: after every operation at most N files, survivors are the most recent contiguous stretch, nothing deleted for N<=0, nothing rotated for N=1, foreign files byte-identical; every unlink is checked when it is issued. Histories with option-switching restarts; after every crash point of a rotating write a restarted sink must be back within the limit, counting files, once it has rotated twice.",
    note=VFS_NOTE),
  "C07": dict(engine="vfs", level=MC, design="§5, §7 C07",
    technique="exhaustive history enumeration over record sizes straddling the limit (L-1..L+2, 1, multi-byte, embedded LF) on the real sink; per-file size/record-count oracle",
@@ -46,18 +46,18 @@ CHECKS.update({
 CHECKS.update({
  "C08": dict(engine="vfs", level=EX, design="§7 C08",
    technique="exhaustive enumeration of a finite content/size family and of all histories/crash points on the real compressing sink; zlib + Python gzip as independent decoders",
-   text="A finite family (boundary sizes x content generators, all records <= 2 symbols over a 12-symbol alphabet) plus every .gz met in the bounded history exploration and at every crash point inside compression is decoded by two independent gzip implementations; header, CRC-32, ISIZE, payload and 'original removed only after the .gz is complete' are checked. Says nothing about contents outside the family.",
+   text="A finite family (boundary sizes x content generators, all records <= 2 symbols over a 12-symbol alphabet) plus every .gz met in the bounded history exploration and at every crash point inside compression is decoded by two independent gzip implementations; header, CRC-32, ISIZE, payload and 'original removed only after the .gz is complete' are checked. A read-back failure of the rotated file (open for reading fails) is a fault point too: whatever .gz a completed operation leaves behind must be a complete valid stream. Says nothing about contents outside the family.",
    note=VFS_NOTE),
  "C10": dict(engine="vfs", level=FE, design="§5.3, §7 C10",
    technique="exhaustive crash-point and single-fault enumeration: one forked execution of the real sink per mutating system call of every rotating write (interposed libc), oracle evaluated at the crash instant, followed by restarts under a destructive-call monitor",
-   text="For every configuration and bounded prefix history, every mutating system call of a rotating write is a crash point and every rename/link/unlink/.gz-create a single-failure point; at each, every byte that had reached a log file must be in an intact file, and a restarted sink (same day, then next day) may only delete by retention, never truncate or reuse a name.",
+   text="For every configuration and bounded prefix history, every mutating system call of a rotating write is a crash point and every rename/link/unlink/.gz-create a single-failure point; read-only opens of existing files (the compression step reading the rotated file back) are single-failure points as well; at each, every byte that had reached a log file must be in an intact file, and a restarted sink (same day, then next day) may only delete by retention, never truncate or reuse a name.",
    note=VFS_NOTE + " Process death only (no power-loss model); single faults; Qt's internal copy+remove fallback of QFile::rename accepted."),
 })
 
 CHECKS.update({
  "C11": dict(engine="procx", level=FE, design="§6, §7 C11",
    technique="exhaustive enumeration of a finite product of child processes (configuration front-end x sink kind x thread x backlog x payload size around the stream buffer), each killed by qFatal's abort; file contents compared with the logged sequence",
-   text="Every combination of configuration front-end, file sink kind, logging thread, number of preceding messages and payload size around QFile's 16 KiB buffer is run as a real child process that ends in qFatal; the child must die by SIGABRT and the log files must hold every message and the fatal one, in order.",
+   text="Every combination of configuration front-end, file sink kind, logging thread, number of preceding messages and payload size around QFile's 16 KiB buffer is run as a real child process that ends in qFatal; the child must die by SIGABRT and the log files must hold every message and the fatal one, in order. Empty message texts (an empty fatal message; empty records before it) are part of the length histories.",
    note="Trusted: the crash point is Qt's abort() right after the handler returns; synchronous logger only; real QFile buffering of the installed Qt."),
 })
 
@@ -80,46 +80,46 @@ CHECKS.update({
 CHECKS.update({
  "C12": dict(engine="seqx", level=EX, design="§7 C12",
    technique="bounded-exhaustive enumeration of token sequences x adversarial values x types on the real PatternFormatter against an independent reference of the documented mini-language (accept-sets where the documentation is silent)",
-   text="Every pattern up to the token bound over an alphabet covering every documented construct is formatted for every value of an adversarial list (as message and attribute value) and every type; the output must be in the accept-set computed by an independent reference written from the documentation on UTF-16 code units. Exhaustive within the bound; constructs the documentation leaves open are excluded and counted.",
+   text="Every pattern up to the token bound over an alphabet covering every documented construct is formatted for every value of an adversarial list (as message and attribute value) and every type; the output must be in the accept-set computed by an independent reference written from the documentation on UTF-16 code units. Exhaustive within the bound; constructs the documentation leaves open are excluded and counted. The format-spec grammar [fill][align]width[!] is also enumerated as a product (fills include the alignment characters themselves), and consecutive messages hand their function/file/category strings over in reused caller buffers.",
    note="Trusted: the reference (engine/seqx/c12.cpp, from docs/api/formatters.md and the property text); printable-ASCII category/file/function."),
 })
 
 CHECKS.update({
  "C13": dict(engine="seqx", level=EX, design="§7 C13",
    technique="bounded-exhaustive enumeration of inputs (all strings up to the length bound over a 46-symbol adversarial Unicode alphabet in message / attribute-value / attribute-name position, typed values, source-location strings) on the real JsonFormatter; Python json as independent parser, field-by-field oracle",
-   text="Every string up to the length bound over 46 code points (all C0 controls, quote, backslash, DEL, C1, U+2028/9, non-characters, astral) is fed as message text, as string attribute value and as attribute name, together with a typed-value family (integers to +-2^53, doubles, bools, nested lists/maps) alone and in all ordered pairs and null/empty/printable source-location strings, through compact and indented mode; each output must parse as exactly one JSON object without duplicate keys, carry exactly the built-in + custom keys, return every value unchanged, and (compact) contain no LF/CR. Says nothing about strings beyond the bound or symbols outside the alphabet.",
+   text="Every string up to the length bound over 46 code points (all C0 controls, quote, backslash, DEL, C1, U+2028/9, non-characters, astral) is fed as message text, as string attribute value and as attribute name, together with a typed-value family (integers to +-2^53, doubles, bools, nested lists/maps) alone and in all ordered pairs and null/empty/printable source-location strings, through compact and indented mode; each output must parse as exactly one JSON object without duplicate keys, carry exactly the built-in + custom keys, return every value unchanged, and (compact) contain no LF/CR. Formatters are also obtained the way applications do (SimplePipeline::formatToJson(true/false), JsonFormatter::instance()) in all six orders of first use per process; every message is formatted later (2.5 s / a minute / a day on the virtual clock) than it was created. Says nothing about strings beyond the bound or symbols outside the alphabet.",
    note="Trusted: Python's json module as the judge; the expectation is written by a 10-line ASCII-only JSON writer in the harness from the inputs; TZ=UTC."),
  "C18": dict(engine="seqx", level=EX, design="§7 C18",
    technique="bounded-exhaustive enumeration of inputs (message strings over the adversarial alphabet, category/type/function/file products, all 256 subsets of the routed attribute names, the 100-code-unit cut family, clock boundary family under four time zones, identical-message bursts) on the real SentryFormatter with a virtual clock; Python json oracle, event-id uniqueness over the whole run and across processes",
-   text="Every enumerated message is formatted by the real SentryFormatter under an interposed clock; each event must be one valid JSON object (no duplicate keys, no lone surrogates), with a 32-hex event id never seen before in the run or in another process, timestamp = message time in UTC to the second, mapped level, message.formatted = text, logger only for non-default categories, fingerprint [level, category|default, first 100 characters], and every custom attribute exactly once in its documented slot or under extra with its value intact.",
+   text="Every enumerated message is formatted by the real SentryFormatter under an interposed clock; each event must be one valid JSON object (no duplicate keys, no lone surrogates), with a 32-hex event id never seen before in the run or in another process, timestamp = message time in UTC to the second, mapped level, message.formatted = text, logger only for non-default categories, fingerprint [level, category|default, first 100 characters], and every custom attribute exactly once in its documented slot or under extra with its value intact. Every event is formatted later than its message was created (virtual clock advanced across second, minute and day boundaries), so the timestamp obligation distinguishes message time from formatting time.",
    note="Trusted: Python's json module; slot table from docs/api/formatters.md; accept-set for the cut at a surrogate pair (99 units / U+FFFD / 100 code points / pair kept whole), never a lone surrogate."),
 })
 
 CHECKS.update({
  "C15": dict(engine="seqx", level=EX, design="§7 C15",
    technique="bounded-exhaustive enumeration of rule lists (all sequences up to the length bound over an alphabet of well-formed, typed, wildcard, metacharacter and malformed rule lines, all separator styles) x categories x types on the real CategoryFilter; independent glob-based reference, QLoggingCategory as second opinion",
-   text="Every rule list up to the bound over ~340 rule lines (and longer lists over a 24-line sub-alphabet) is given to the real CategoryFilter and probed with 28 categories x 5 types; every verdict must equal ordered evaluation by an independent parser and glob matcher: last matching well-formed rule decides, default pass, typed rules apply to their type only, malformed lines are ignored, ';' and newline separate. Wherever Qt's own QLoggingCategory supports the rules it must agree with the reference.",
+   text="Every rule list up to the bound over ~340 rule lines (and longer lists over a 24-line sub-alphabet) is given to the real CategoryFilter and probed with 28 categories x 5 types; every verdict must equal ordered evaluation by an independent parser and glob matcher: last matching well-formed rule decides, default pass, typed rules apply to their type only, malformed lines are ignored, ';' and newline separate. Wherever Qt's own QLoggingCategory supports the rules it must agree with the reference. A second sweep per rule list feeds consecutive same-type messages whose category names arrive in one reused caller buffer.",
    note="Trusted: the reference (engine/seqx/c15.cpp, from the property text); printable-ASCII categories; lines with several '=' or upper-case booleans left out."),
 })
 
 CHECKS.update({
  "C14": dict(engine="seqx", level=EX, design="§7 C14",
    technique="bounded-exhaustive enumeration of token strings over four syntax alphabets (signatures, patterns, category rules, messages) plus a finite long-input family on the real formatters and filters in an ASan+UBSan build with Qt assertions on and a per-case watchdog; crash/hang attributed to one case through a shared marker",
-   text="Every token string up to the bound over alphabets built from the syntax the parsers look for (brackets, ::, operator, lambda, (*, )(, %, {, }, :, ?, digits, if-/endif, rule separators and regex metacharacters, control/astral/combining characters) and a long family (every token, ordered token pair and a^n b^n repeated to the size cap) is pushed through %{func}/%{function}/%{shortfile}, pattern construction + formatting, CategoryFilter, a menu of 12 regular expressions, Pretty/JSON/Sentry formatters; no sanitizer report, no assertion, no signal, every case within its time budget. Exhaustive to the token bound only.",
+   text="Every token string up to the bound over alphabets built from the syntax the parsers look for (brackets, ::, operator, lambda, (*, )(, %, {, }, :, ?, digits, if-/endif, rule separators and regex metacharacters, control/astral/combining characters) and a long family (every token, ordered token pair and a^n b^n repeated to the size cap) is pushed through %{func}/%{function}/%{shortfile}, pattern construction + formatting, CategoryFilter, a menu of 12 regular expressions, Pretty/JSON/Sentry formatters; no sanitizer report, no assertion, no signal, every case within its time budget. Pretty formatters with wide category limits (64, 4096) see the case text as category followed by short categories (column state kept between messages); pattern tokens include widths beyond 2^32 and 2^64. Exhaustive to the token bound only.",
    note="Trusted: AddressSanitizer/UBSan and Qt's own Q_ASSERTs (the library is compiled without QT_NO_DEBUG) as the oracle; PCRE match limits make pathological expressions fail rather than hang."),
 })
 
 CHECKS.update({
  "C19": dict(engine="procx", level=MC, design="§7 C19",
    technique="exhaustive enumeration of the configuration space (full product of INI key values; all one-line configure() argument tuples) with one real child process per configuration and run, outputs captured on pipes / ptys and files read back, against a composed reference model; plus exhaustive enumeration of install/restore/foreign-handler histories up to the depth bound on the real functions against the protocol's reference model",
-   text="Every combination of the INI keys over reduced value domains and every one-line configure() tuple is run as a real process that logs a fixed six-message stream through Qt's macros (two runs when a file is configured); per stream the delivered lines must be exactly the messages passing the configured filters, once per configured output, in order, formatted as configured, nothing on unconfigured streams, colour only on terminals when asked, file text = console text minus colour codes. Every history of install(A)/install(B)/restore/foreign(F1)/foreign(F2) up to the depth bound is executed on the real handler functions and observed by emitting a message after every step.",
+   text="Every combination of the INI keys over reduced value domains and every one-line configure() tuple is run as a real process that logs a fixed six-message stream through Qt's macros (two runs when a file is configured); per stream the delivered lines must be exactly the messages passing the configured filters, once per configured output, in order, formatted as configured, nothing on unconfigured streams, colour only on terminals when asked, file text = console text minus colour codes. The stream ends with two messages from a second thread; INI configurations are also read from a non-default group next to a decoy [logger] group, with or without another Logger object of the process configured from the decoy group first. Every history of install(A)/install(B)/restore/foreign(F1)/foreign(F2) up to the depth bound is executed on the real handler functions and observed by emitting a message after every step.",
    note="Trusted: the Python rule/regex reference; PrettyFormatter output matched structurally; accept-set {original, interposed} when a foreign handler was installed between two installs."),
 })
 
 CHECKS.update({
  "C20": dict(engine="seqx", level=EX, design="§7 C20, §8",
    technique="bounded-exhaustive differential exploration: the explorer spaces of C01 C12 C14 C15 C16 C17 are executed by two builds of each explorer (library sources vs the single header alone) and every case's observed output is compared (digests, first differing case on mismatch); auxiliary exact step, not model checking and reported separately: the project's generator is run on a scratch copy and compared byte for byte",
-   text="Every case of six bounded explorer spaces (pipeline trees, pattern x value products, signature and rule token strings, rule lists, filter/counter message sequences, sorted-pipeline call sequences) is executed against the library built from src/ and against /repo/qtlogger.h alone; all observed outputs, case counts and oracle verdicts must be equal. Decides the property's behavioural consequence inside those spaces; the byte-for-byte clause is decided by re-running the generator (exact comparison, outside the model-checking family, flagged as such in the evidence).",
+   text="Every case of six bounded explorer spaces (pipeline trees, pattern x value products, signature and rule token strings, rule lists, filter/counter message sequences, sorted-pipeline call sequences) is executed against the library built from src/ and against /repo/qtlogger.h alone; all observed outputs, case counts and oracle verdicts must be equal. A build-option explorer (SignalSink deliveries over direct and queued connections before/after a handler object exists, message copies) is compared on both distributions with default options and with -DQTLOGGER_NO_THREAD on both sides. Decides the property's behavioural consequence inside those spaces; the byte-for-byte clause is decided by re-running the generator (exact comparison, outside the model-checking family, flagged as such in the evidence).",
    note="Trusted: g++ builds of both distributions with the same flags; clock/thread dependent outputs excluded from digests. The byte comparison cannot raise a false alarm and is kept because a behavioural comparison cannot see drift in unreached code."),
 })
 
